@@ -9,8 +9,9 @@ import ast, inspect, textwrap
 
 class T3:
     """python (whitelisted subset) -> Lean 4 term. Returns Except String α style via `throw`."""
-    def __init__(self, bindings, calls, strmap=None, excmap=None, ret="pure %s", throw='throw "%s"'):
+    def __init__(self, bindings, calls, strmap=None, excmap=None, ret="pure %s", throw='throw "%s"', tests=None):
         self.b = bindings; self.calls = calls
+        self.tests = tests or {}       # python truthiness of a name used as a condition, spelled out per name
         self.strmap = strmap or {}; self.excmap = excmap or {}
         self.ret = ret; self.throw = throw
     def expr(self, e):
@@ -32,6 +33,10 @@ class T3:
             return "(" + op.join(self.expr(v) for v in e.values) + ")"
         if isinstance(e, ast.UnaryOp) and isinstance(e.op, ast.Not):
             return "(!" + self.expr(e.operand) + ")"
+        if isinstance(e, ast.Compare) and len(e.ops) == 1 and isinstance(e.ops[0], ast.In) and \
+                isinstance(e.comparators[0], ast.List):
+            # x in [a, b, ...]
+            return "(List.contains [%s] %s)" % (", ".join(self.expr(x) for x in e.comparators[0].elts), self.expr(e.left))
         if isinstance(e, ast.Compare) and len(e.ops) == 1:
             l, r = self.expr(e.left), self.expr(e.comparators[0])
             o = e.ops[0]
@@ -42,6 +47,12 @@ class T3:
             if k in self.calls:
                 return "(" + self.calls[k] + " " + " ".join(self.expr(a) for a in e.args) + ")"
         raise NotImplementedError(ast.dump(e)[:120])
+    def test(self, e):
+        """a condition: a bare name is Python truthiness, given per name in `tests`"""
+        k = ast.unparse(e)
+        if k in self.tests:
+            return self.tests[k]
+        return self.expr(e)            # (a bare name not listed must be a Bool: anything else does not compile)
     def block(self, stmts, ind):
         s = stmts[0]; pad = "  " * ind
         if isinstance(s, ast.Expr) and isinstance(s.value, ast.Constant):   # docstring
@@ -57,7 +68,7 @@ class T3:
             if s.orelse and rest: raise NotImplementedError("code after if/else")
             body_falls = not isinstance(s.body[-1], (ast.Return, ast.Raise, ast.If))
             if body_falls: raise NotImplementedError("fallthrough")
-            return (pad + "if " + self.expr(s.test) + " then\n" + self.block(s.body, ind+1) +
+            return (pad + "if " + self.test(s.test) + " then\n" + self.block(s.body, ind+1) +
                     "\n" + pad + "else\n" + self.block(els, ind+1))
         raise NotImplementedError(type(s).__name__)
     def fun(self, f, name, sig):
